@@ -105,3 +105,28 @@ def check_c18(tier, replay=None):
                                   'every built-in backend in real and manifest mode' % mo)
     rep.assumptions = ['TLC 1.8; harness/emitcheck.py (rendering of characters and path segments); os.walk snapshots of the sandbox directory']
     return rep.finish()
+
+
+def check_c10(tier, replay=None):
+    from defcheck import DefaultsJudge
+    if replay:
+        return _simple_replay('C10', DefaultsJudge, replay)
+    rep = Report('C10', tier)
+    jobs = ['defaults', 'examples']
+    res = run_shards('StoneDefaultsMC',
+                     lambda m: dict(spec='Spec', constants={'Shard': 0, 'NShards': 1, 'EmitVectors': True, 'Mode': '"%s"' % m},
+                                    invariants=['DefaultsValid', 'ExamplesValid'], constraints=['Emit']),
+                     jobs, 'defcheck.DefaultsJudge', {}, tlc_kwargs={'timeout': 6000})
+    for m, r in zip(jobs, res):
+        agg = merge([r])
+        rep.add_tlc('StoneDefaultsMC/' + m, agg, {'Mode': m})
+        rep.add_judged(agg)
+    rep.exhaustive = True
+    rep.coverage_extra['rule'] = ('22 field types (bounded and unbounded Int32/UInt64/Int64, Float32/Float64, String with length and pattern, '
+                                  'Boolean, unions incl. child union, alias of union and of string, Timestamp, nullable, List, Map, struct, Bytes) x 46 '
+                                  'literals (integers and floats at and beyond the bounds, strings of length 0-4 matching the pattern fully / as a '
+                                  'prefix only / not at all, booleans, tags incl. inherited, typed and unknown ones, null, timestamp text): verdict '
+                                  'of the compiler, value read from the unset field, acceptance by the generated class; 340 (type shape, example '
+                                  'label) pairs over 10 slot types: computed example = denoted document, strict decode = denoted value, re-encode')
+    rep.assumptions = ['TLC 1.8; harness/defcheck.py literal rendering; StoneRuntime!Accepts as the runtime rule (checked by C08)']
+    return rep.finish()
